@@ -170,6 +170,15 @@ func (rt *referenceTracker) processRowUpdate(table, uuid string, row *ovsdb.RowU
 	case row.Delete != nil:
 		rt.deleted[uuid] = table
 		updateRefs = getReferenceModificationsFromRow(&rt.dbModel, table, uuid, row.Old, row.Old)
+	case row.Modify != nil && row.Old != nil && row.New != nil:
+		// the modifications of a column are not always a difference of its
+		// references (an optional value is replaced, several keys of a map can
+		// hold the same reference), so work out which references are made by
+		// only one of the old and the new row
+		updateRefs = diffReferences(
+			getReferenceModificationsFromRow(&rt.dbModel, table, uuid, row.Old, nil),
+			getReferenceModificationsFromRow(&rt.dbModel, table, uuid, row.New, nil),
+		)
 	case row.Modify != nil:
 		updateRefs = getReferenceModificationsFromRow(&rt.dbModel, table, uuid, row.Modify, row.Old)
 	case row.Insert != nil:
@@ -728,6 +737,28 @@ func getReferenceModificationsFromAtom(dbModel *model.DatabaseModel, table, uuid
 		refs[spec][old.GoUUID] = []string{from}
 	}
 	return refs
+}
+
+// diffReferences returns the references that are either in 'a' or in 'b' but
+// not in both
+func diffReferences(a, b database.References) database.References {
+	diff := database.References{}
+	onlyIn := func(x, y database.References) {
+		for spec, refs := range x {
+			for to, from := range refs {
+				if _, ok := y[spec][to]; ok {
+					continue
+				}
+				if _, ok := diff[spec]; !ok {
+					diff[spec] = database.Reference{}
+				}
+				diff[spec][to] = from
+			}
+		}
+	}
+	onlyIn(a, b)
+	onlyIn(b, a)
+	return diff
 }
 
 // applyReferenceModifications updates references in 'a' from those in 'b'
